@@ -143,6 +143,13 @@ func (rn *runner) runWriter(e *RealEnd, tc *TaskCfg, t *Task) {
 					c.EnableWriteCompression(ewc)
 					continue
 				}
+				if ch.How == "cc" {
+					// Close of the connection while a message is open (allowed concurrently with everything);
+					// the writer is used on and must fail cleanly
+					cr := t.Begin("ConnClose", i)
+					t.End(cr, c.Close())
+					continue
+				}
 				if ch.How == "l" {
 					lr := t.Begin("SetCompressionLevel", i)
 					t.End(lr, c.SetCompressionLevel(ch.N))
